@@ -30,7 +30,7 @@ def build_lines(st, decorate, rnd):
             tags = [f"LN:i:{n['ln']}"]       # a segment outside the rGFA reference annotation: no SN / SO / SR at all
         if decorate:
             # (numbers are kept as WRITTEN: a sign, leading zeros, a float without integer part are all valid spellings)
-            extra = [["xn:i:-3", "xr:i:0042"], ["xx:Z:a:b", "xf:f:1e-05", "xd:i:+3"], ["xs:Z:two words ", "xg:f:.5"], ["xa:A:*", "xh:f:-.25e1"]][idnum(n["id"]) % 4]
+            extra = [["xn:i:-3", "xr:i:0042", "xe:Z:"], ["xx:Z:a:b", "xf:f:1e-05", "xd:i:+3"], ["xs:Z:two words ", "xg:f:.5"], ["xa:A:*", "xh:f:-.25e1"]][idnum(n["id"]) % 4]
             tags += extra
         if decorate and idnum(n["id"]) % 5 == 3:      # LN is optional when the sequence is given: nothing may invent it
             tags = [t for t in tags if not t.startswith("LN:")]
@@ -187,6 +187,9 @@ def run_session(job):
                 if ci % 2 == 1:       # record types interleaved: S, L and other lines in a seeded random order
                     rnd.shuffle(lines)
                 runs.append(one_run(d, f"c{ci}", lines, names, bc, ws, gz, "base" if ci % 2 == 0 else "shuffled"))
+        elif opts.get("default_order"):      # C18 with the documented default request (no --chromosome_order)
+            runs.append(one_run(d, "dflt", base, names, False, False, False, "with", no_order_arg=True))
+            runs.append(one_run(d, "dfltc", base, names, True, False, False, "with", no_order_arg=True))
         else:  # C18
             orders = list(itertools.permutations(names)) if len(names) <= 3 else [names]
             for oi, order in enumerate(orders):
